@@ -23,9 +23,9 @@ CHECKS["C14"] = dict(
    technique="CBMC contract proofs: complete loop-free harnesses over symbolic page offsets + DFCC loop contracts with ghost indices")
 
 CHECKS["C16"] = dict(
-   text="Contract proofs, complete over every well-formed pool state (head chunk of any capacity/fill <= 2^48, optional older chunk, any policy state, both chunk policies): Malloc (with AddChunk/GetChunkBuffer inlined, ChunkSize by contract) returns null or an 8-aligned block wholly inside the head chunk directly behind what was handed out, or at the start of a fresh chunk; zero size -> null; its frame contains no chunk-buffer byte. Realloc: shrink keeps the pointer, growth is in place only for the last block with room in the head chunk, otherwise a Malloc block whose first bytes equal the old contents (ghost index); it writes only at or behind the old bump pointer. Two consecutive Mallocs are disjoint. ChunkSize >= request with defined clz/shift. AlignBuffer (user-supplied buffer) yields a pointer-aligned tail of the buffer. Chunk-list walks (Clear/Size/Capacity), destructor and copy assignment (incl. self-assignment and assignment between copies) are bounded stand-ins over pools of <= 3 chunks.",
+   text="Contract proofs, complete over every well-formed pool state (head chunk of any capacity/fill <= 2^48, optional older chunk, any policy state, both chunk policies): Malloc (with AddChunk/GetChunkBuffer inlined, ChunkSize by contract) returns null or an 8-aligned block wholly inside the head chunk directly behind what was handed out, or at the start of a fresh chunk; zero size -> null; its frame contains no chunk-buffer byte. Realloc: shrink keeps the pointer, growth is in place only for the last block with room in the head chunk, otherwise a Malloc block whose first bytes equal the old contents (ghost index); it writes only at or behind the old bump pointer. Two consecutive Mallocs are disjoint. ChunkSize >= request with defined clz/shift. AlignBuffer (user-supplied buffer) yields a pointer-aligned tail of the buffer. Chunk-list walks (Clear/Size/Capacity), destructor, copy assignment (incl. self-assignment and assignment between copies) and move assignment are bounded stand-ins over pools of <= 3 chunks.",
    design_ref="DESIGN.md section 5 (C16)",
-   note="Trusted: CBMC, lowering, the BaseAllocator stub (null or fresh block; free), libc memcpy contract. Stated bound 2^48 on sizes/capacities. Constructors (member-initialiser lists), move operations and the locked-allocator option are not under contract. The last-block test in Realloc forms an out-of-object pointer that is only compared (observation job).",
+   note="Trusted: CBMC, lowering, the BaseAllocator stub (null or fresh block; free), libc memcpy contract. Stated bound 2^48 on sizes/capacities. Constructors (member-initialiser lists) and the locked-allocator option are not under contract. The last-block test in Realloc forms an out-of-object pointer that is only compared (observation job).",
    technique="CBMC function contracts enforced by DFCC on mechanically sliced member functions (loop-free: complete); bounded unwinding for list walks")
 
 CHECKS["C06"] = dict(
